@@ -359,7 +359,12 @@ def run_case(case):
         if rerun:
             # first run (debug worker) fills the cache; the observed run is the forced re-run over it
             gen_file = os.path.join(tmp, "generation")
-            os.environ["VERIF_GEN_FILE"] = gen_file
+            if mode == "rerun":
+                # pure bodies: same checksums in both runs, every job has a stale result (what the model's
+                # warm start assumes); staleness shows in the start/finish order only
+                os.environ.pop("VERIF_GEN_FILE", None)
+            else:
+                os.environ["VERIF_GEN_FILE"] = gen_file
             with open(gen_file, "w") as f:
                 f.write("1")
             with Submitter(worker="debug", cache_root=cache) as sub:
@@ -374,7 +379,7 @@ def run_case(case):
         kw = {}
         if case.get("k") is not None:
             kw["max_concurrent"] = int(case["k"])
-        if mode in ("async", "rerun", "state"):
+        if mode in ("async", "rerun", "rerun_gen", "state"):
             worker = FakeWorker
         elif mode in ("sync", "rerun_sync", "state_sync"):
             worker = "debug"
@@ -386,7 +391,7 @@ def run_case(case):
                 res = sub(wf, raise_errors=True, rerun=rerun)
             obs["outcome"] = "ok"
             obs["outputs"] = _canon([getattr(res.outputs, "o%d" % n["id"]) for n in case["nodes"]])
-            if rerun:
+            if rerun and mode != "rerun":
                 obs["generations"] = sorted(_gens(obs["outputs"], set()))
         except Exception as e:  # noqa
             msg = str(e)
